@@ -429,6 +429,14 @@ class DtypePolicy(BasePolicy):
                 for t_ in ts:
                     acc = t_ if acc is None else acc & t_
                 return acc or EMPTY
+            if n and n.startswith("np.") and expr.args and not n.startswith(("np.is", "np.any", "np.all", "np.arg", "np.logical", "np.nonzero", "np.flatnonzero", "np.size", "np.shape", "np.ndim", "np.count", "np.random", "np.sign", "np.searchsorted", "np.digitize", "np.unique", "np.lexsort", "np.int", "np.uint", "np.bool", "np.array_equal", "np.allclose")):
+                # numpy's type promotion: an array function of a float array is float (value-preserving helpers such as
+                # broadcast_to / tile / repeat / take / compress keep the dtype of their first argument)
+                t0 = self.eval(expr.args[0], state, flow)
+                if n in ("np.broadcast_to", "np.tile", "np.repeat", "np.take", "np.compress", "np.flip", "np.roll", "np.sort", "np.diag", "np.tril", "np.triu", "np.cumsum", "np.sum", "np.max", "np.min", "np.amax", "np.amin"):
+                    return t0
+                if "FLT" in t0:
+                    return frozenset({"FLT"})
         if isinstance(expr, ast.Constant) and isinstance(expr.value, float):
             return frozenset({"FLT"})
         if isinstance(expr, ast.BinOp):
